@@ -581,10 +581,10 @@ func runC06(r *core.Run) {
 			return core.Outcome{Class: fmt.Sprint("end1%4096=", min(c.End1%4096, 2), " items=", min(len(got), 2)), Nontrivial: true, Evals: 2}
 		})
 
-	core.Clause(r, "file-grid", core.Opts{Rule: "every format (SAM: File and FileHeader) x {plain, .gz written with compress/gzip} x content {empty file, one record, many records, a file whose decode ends in an error item, the 9 KiB file, the long-line file, a file with one line of 70 000 bytes, one with a line of 2 MiB, a ~300 KiB file} plus a multi-member .gz: File(path) yields what Reader yields on the bytes; a missing path yields exactly one item, an error - also when its compressed or uncompressed twin, a backup, another compression or an upper-case twin exists next to it; non-trivial = all"},
+	core.Clause(r, "file-grid", core.Opts{Rule: "every format (SAM: File and FileHeader) x {plain, .gz written with compress/gzip} x content {empty file, one record, many records, a file whose decode ends in an error item, the 9 KiB file, the long-line file, a file with one line of 70 000 bytes, one with a line of 2 MiB, a ~300 KiB file} plus a multi-member .gz: File(path) yields what Reader yields on the bytes; a missing path yields exactly one item, an error - also when its compressed or uncompressed twin, a backup, another compression or an upper-case twin exists next to it; how the path reaches the file plays no role (blanks and non-ASCII in it, a directory whose name ends in .gz, a symbolic link, a relative path, dot segments); non-trivial = all"},
 		func(emit func(c06File) bool) {
 			for _, f := range formats {
-				for _, what := range []string{"empty", "one", "many", "error", "error-middle", "large", "longline", "line-70KiB", "line-2MiB", "huge", "gzip-magic", "zstd-magic", "gzip-bytes", "missing", "missing-next-to-compressed-twin", "missing-next-to-plain-twin", "missing-next-to-backup", "missing-next-to-other-compression", "missing-next-to-upper-case-twin"} {
+				for _, what := range []string{"empty", "one", "many", "error", "error-middle", "large", "longline", "line-70KiB", "line-2MiB", "huge", "gzip-magic", "zstd-magic", "gzip-bytes", "missing", "missing-next-to-compressed-twin", "missing-next-to-plain-twin", "missing-next-to-backup", "missing-next-to-other-compression", "missing-next-to-upper-case-twin", "path:space-and-unicode", "path:dir-named-like-gz", "path:symlink", "path:relative", "path:dot-segments"} {
 					for _, gz := range []bool{false, true} {
 						emit(c06File{f.Name, what, gz})
 					}
@@ -651,7 +651,14 @@ func runC06(r *core.Run) {
 				}
 				return core.OK("missing", true)
 			}
+			pathShape := ""
+			if strings.HasPrefix(c.What, "path:") { // the content is the medium file; what varies is how the path reaches it
+				pathShape = strings.TrimPrefix(c.What, "path:")
+			}
 			data := fileContent(c.Format, c.What)
+			if pathShape != "" {
+				data = corpus(c.Format, "medium")[0]
+			}
 			var disk []byte
 			if c.Gz && c.What == "multimember" {
 				// a gzip file made of several members (what `cat a.gz b.gz` or bgzip produce)
@@ -671,17 +678,58 @@ func runC06(r *core.Run) {
 			} else {
 				disk = data
 			}
+			ext := filepath.Ext(strings.TrimSuffix(name, ".gz"))
+			if c.Gz {
+				ext += ".gz"
+			}
+			ask := path
+			switch pathShape {
+			case "space-and-unicode":
+				path = filepath.Join(scratch, fmt.Sprintf("dir with space %s %v", c.Format, c.Gz), "données 日本 (1)"+ext)
+				os.MkdirAll(filepath.Dir(path), 0o755)
+				defer os.RemoveAll(filepath.Dir(path))
+				ask = path
+			case "dir-named-like-gz":
+				path = filepath.Join(scratch, fmt.Sprintf("archive-%s-%v.gz", c.Format, c.Gz), "reads"+ext)
+				os.MkdirAll(filepath.Dir(path), 0o755)
+				defer os.RemoveAll(filepath.Dir(path))
+				ask = path
+			case "symlink":
+				path = filepath.Join(scratch, fmt.Sprintf("target-%s-%v%s", c.Format, c.Gz, ext))
+				ask = filepath.Join(scratch, fmt.Sprintf("link-%s-%v%s", c.Format, c.Gz, ext))
+			case "relative":
+				path = filepath.Join(scratch, fmt.Sprintf("rel-%s-%v%s", c.Format, c.Gz, ext))
+				if cwd, err := os.Getwd(); err == nil {
+					if rel, err := filepath.Rel(cwd, path); err == nil {
+						ask = rel
+					}
+				}
+			case "dot-segments":
+				path = filepath.Join(scratch, fmt.Sprintf("dots-%s-%v%s", c.Format, c.Gz, ext))
+				ask = scratch + "/./x/../" + filepath.Base(path)
+				os.MkdirAll(filepath.Join(scratch, "x"), 0o755)
+			}
 			if err := os.WriteFile(path, disk, 0o644); err != nil {
 				return core.Outcome{Class: "HARNESS cannot write scratch file", Skip: true}
 			}
 			defer os.Remove(path)
+			if pathShape == "symlink" {
+				os.Remove(ask)
+				if err := os.Symlink(path, ask); err != nil {
+					return core.Outcome{Class: "HARNESS cannot create a symlink", Skip: true}
+				}
+				defer os.Remove(ask)
+			}
 			want, wp := refRead(f, data)
-			got, gp, over := f.File(path, 1<<20)
+			got, gp, over := f.File(ask, 1<<20)
 			if over {
 				gp = "iterator did not end"
 			}
 			if wp != "" || gp != "" {
 				return core.Failf("%s: panic: Reader %q File %q", c.Format, wp, gp)
+			}
+			if pathShape != "" && !sameShape(got, want) {
+				return core.Failf("%s.File(%q) (path shape: %s) yields %s but Reader on that file's bytes yields %s", c.Format, ask, pathShape, trunc(renderObs(got), 300), trunc(renderObs(want), 300))
 			}
 			if !sameShape(got, want) {
 				return core.Failf("%s.File(%s) yields %s but Reader on the same %d bytes yields %s", c.Format, name, trunc(renderObs(got), 300), len(data), trunc(renderObs(want), 300))
